@@ -112,7 +112,12 @@ class Ctx:
         sub.repo, sub.src = self.repo, self.src
         sub._only_rules = set(mapping)
         sub._filter = construct_filter
-        run_fn(sub)
+        try:
+            run_fn(sub)
+        except AnalysisError as e:
+            # the other check could not finish (its own exit-2 condition, reported when that property is checked); what it
+            # decided of the shared rules before stopping is still used here, and the gap is stated
+            self.decline(f"shared rules {sorted(mapping.values())}: the check they come from stopped early ({str(e)[:160]}); only the instances decided before that are included")
         for old, new in mapping.items():
             self.rule(new, f"{sub.rule_doc.get(old, old)}  [rule {old}, applied to this property because {why}]")
             cnt = sub.rule_counts.get(old, [0, 0])
